@@ -8,6 +8,8 @@ import round_cases as rnd
 def poly_cases(ctx, count):
     """data = P(t) along the kick direction on the full grid, deg P < it"""
     rng = ctx.rng
+    import random
+    frng = random.Random(ctx.seed * 1000003 + 105)      # own PRNG: the far cases do not shift the draws of the older streams
     cases = []
     for i in range(count):
         n = rng.choice(range(8, 26))
@@ -21,6 +23,11 @@ def poly_cases(ctx, count):
             o = rng.randint(-2, 2) + rng.randint(0, 15) / 16.0
         else:
             o = f32(rng.uniform(-3, 3))
+        if i % 5 == 4:
+            # far offsets: the integer part of n/2+offset is 0, 1 (stencil leaving the table at the bottom) or size-2, size-1, size
+            # (top; guard's upper edge) - cells whose whole stencil READS inside the grid exist there too
+            jd = frng.choice([0, 1, n - 2, n - 1, n])
+            o = float(jd - n // 2) + frng.randint(1, 15) / 16.0
         data = [0.0] * (nb * n * n)
         for b in range(nb):
             for x in range(n):
@@ -31,6 +38,34 @@ def poly_cases(ctx, count):
         c.coef = coef
         cases.append(c)
         ctx.count("poly:it%d:deg%d" % (it, deg))
+    return cases
+
+
+def ulp_poly_cases(ctx, count):
+    """polynomial fields displaced by an offset 1..3 ulp below / above a whole number (ulp of the float sum n/2+offset and
+    ulp of the offset itself) or by a tiny offset: integer and fractional part must come from the same rounded sum, else
+    the row is displaced by one cell too much"""
+    rng = ctx.rng
+    cases = []
+    for i in range(count):
+        n = rng.choice(range(8, 26))
+        it = 2 + i % 3
+        d = rng.choice(["x", "y"])
+        nb = rng.choice([1, 2])
+        deg = rng.randint(1, it - 1)
+        coef = [rng.randint(-3, 3) for _ in range(deg)] + [rng.choice([-3, -2, -1, 1, 2, 3])]
+        cand = kc.ulp_candidates(n)
+        o, tag = cand[(i * 7 + rng.randint(0, 6)) % len(cand)]
+        data = [0.0] * (nb * n * n)
+        for b in range(nb):
+            for x in range(n):
+                for y in range(n):
+                    t = y if d == "y" else x
+                    data[b * n * n + x * n + y] = float(sum(c_ * t ** k for k, c_ in enumerate(coef)))
+        c = kc.KickCase("v%d" % i, d, n, nb, it, [o] * (n * nb), data, "tol", "poly-ulp:" + tag)
+        c.coef = coef
+        cases.append(c)
+        ctx.count("poly:ulp:" + tag[:3])
     return cases
 
 
@@ -64,13 +99,18 @@ def oracle_whole(ctx, c, r):
 
 
 def oracle_poly(ctx, c, r):
+    """polynomial reproduction at every cell whose whole stencil reads inside the grid.  Where the table row has lost stencil
+    points (open finding kick-stencil-out-of-table-range, mirrored by the model) the value the KNOWN defect produces is the
+    model's; a value that differs from both the polynomial and the model is a different defect (sig as_modelled=False does
+    not match the listed finding) and is preferred when reporting."""
     n, nb, it = c.n, c.nb, c.it
     o = Fraction(c.offs[0])
     jd, f = kc.split(n, o)
     cen = kc.centre(it)
     P = lambda t: sum(Fraction(co) * t ** k for k, co in enumerate(c.coef))
-    ok = True
     shift = jd - n // 2
+    out_of_table = not (0 <= jd - cen and jd + it - 1 - cen < n)
+    listed = None
     for b in range(nb):
         for k in range(n):
             for t in range(n):
@@ -85,13 +125,19 @@ def oracle_poly(ctx, c, r):
                 if isinstance(got, str) or abs(got - exp) > tol:
                     # the table row itself may have lost stencil points: updateSM drops every point whose TABLE index
                     # jd + j - c leaves [0,n) (the open finding recorded under C01), although the cell it would read is inside
-                    out_of_table = not (0 <= jd - cen and jd + it - 1 - cen < n)
-                    ctx.violation("impl-oracle", "polynomial of degree %d not reproduced by the %d-point scheme" % (len(c.coef) - 1, it),
-                                  case=dict(c.replay(), coef=c.coef), observed=dict(b=b, row=k, cell=t, value=str(got)),
-                                  expected=str(exp), sig=dict(kind="kick", clause="poly", stencil_out_of_table_range=out_of_table))
+                    as_modelled = not isinstance(got, str) and abs(got - r["model_out"][idx]) <= tol
+                    v = dict(case=dict(c.replay(), coef=c.coef), observed=dict(b=b, row=k, cell=t, value=str(got)), expected=str(exp),
+                             sig=dict(kind="kick", clause="poly", stencil_out_of_table_range=out_of_table, as_modelled=as_modelled))
+                    if out_of_table and as_modelled:
+                        listed = listed or v
+                        continue
+                    ctx.violation("impl-oracle", "polynomial of degree %d not reproduced by the %d-point scheme" % (len(c.coef) - 1, it), **v)
                     return False
+    if listed:
+        ctx.violation("impl-oracle", "polynomial of degree %d not reproduced by the %d-point scheme" % (len(c.coef) - 1, it), **listed)
+        return False
     ctx.case_done(("poly", c.cid), len(c.coef) > 1 and f != 0)
-    return ok
+    return True
 
 
 def coeff_cases(ctx, count):
@@ -383,13 +429,22 @@ def run_sweep(ctx, stride=1, threads=6):
 
 def run(ctx):
     ctx.rule = ("kick cases: n 4..33, both directions, it 1..4, nb 1..3, streams exact (offsets k/16, integer data, bit equality), "
-                "whole (integer offsets, arbitrary data, bit equality), tol (arbitrary floats, K*2^-24*cond), polynomial fields; "
+                "whole (integer offsets, arbitrary data, bit equality), tol (arbitrary floats, K*2^-24*cond), edges (integer part of n/2+offset at the "
+                "guard / stencil / table boundaries of the generated updateSM body, odd and even sizes), ulp (offsets 1..3 ulp below / above whole numbers, ulp of "
+                "the float sum n/2+offset and of the offset itself, tiny offsets down to the denormals), polynomial fields (also under ulp offsets), "
+                "sequences (several swapOffset()+apply() on ONE KickMap: rows exactly 0, all 0, non-zero whole shifts, fractional shift of a polynomial; "
+                "every step against the stateless model and through the whole-shift / polynomial oracles); "
                 "coefficient samples in [0,1); RotationMap cases n 6..14, it 1..4, angles 0, +-small, pi/2, pi, random, shifted extents, precomputed and on-the-fly map, polynomial x^k y^l and random data. Non-trivial: non-zero shift on non-zero data / degree>=1 with fractional offset / it>1 and f!=0.")
     coq = vp_coq.full_check("C02", ctx, fams=("kick", "round"))
     nk = 120 if ctx.quick() else 3000
-    cases = kc.gen_cases(ctx, nk, streams=("exact", "whole", "tol", "whole"))
-    pc = poly_cases(ctx, 60 if ctx.quick() else 1500)
-    res = kc.run_cases(ctx, cases + pc)
+    cases = kc.gen_cases(ctx, nk, streams=("exact", "whole", "tol", "whole")) + kc.with_rng(ctx, 101, kc.edge_cases, ctx, 52 if ctx.quick() else 800)
+    cases += kc.with_rng(ctx, 102, kc.ulp_cases, ctx, 16 if ctx.quick() else 400)
+    pc = poly_cases(ctx, 60 if ctx.quick() else 1500) + kc.with_rng(ctx, 103, ulp_poly_cases, ctx, 48 if ctx.quick() else 1500)
+    seqs = kc.with_rng(ctx, 104, kc.seq_cases, ctx, 16 if ctx.quick() else 300)
+    steps = [s_ for q in seqs for s_ in q.steps]
+    res = kc.run_cases(ctx, cases + pc + seqs)
+    pc = pc + [s_ for s_ in steps if hasattr(s_, "coef")]
+    cases = cases + [s_ for s_ in steps if not hasattr(s_, "coef")]
     dis = []
     for c in cases + pc:
         d = kc.compare_case(c, res[c.cid])
@@ -397,7 +452,7 @@ def run(ctx):
             dis.append(dict(case=c.replay(), detail=d[:3], sig=dict(kind="kick", stage="correspondence", dir=c.dir, multibunch=c.nb > 1)))
         ctx.evaluations += 1
     for c in cases:
-        if c.stream == "whole":
+        if c.stream in ("whole", "edges"):
             oracle_whole(ctx, c, res[c.cid])
     for c in pc:
         oracle_poly(ctx, c, res[c.cid])
@@ -414,6 +469,7 @@ def run(ctx):
                         "C02_cell_table_sound) and the implementation is checked against those bounds; kick/rotation outputs still use the "
                         "exact/tolerance streams (DESIGN 3)",
                         "whole-shift theorem proved for n <= 4096 (kernel sweep of the float rounding on [0,4096))"]
+    coq = kc.downgrade_usm(ctx, coq, dis, validated=len(cases) > 0)
     conclude(ctx, coq, dis)
 
 
